@@ -42,7 +42,10 @@ Inductive hstep :=
 | HBarrier (b : nat)      (* waits until the test releases barrier b *)
 | HPanic
 | HWrite                  (* writes a response: blocks while the client is not reading *)
-| HHandshake.             (* Request.StartTLS: waits for the client's handshake *)
+| HHandshake              (* Request.StartTLS: waits for the client's handshake *)
+| HStaleWrite.            (* a write through a ResponseWriter made BEFORE a StartTLS upgrade that has happened
+                             since: it goes to the raw socket, in the clear.  Never in a script a client
+                             or a test supplies: [stale_script] puts it there at the upgrade *)
 
 Inductive rkind := KNormal | KStartTLS | KUnbind.
 
@@ -187,6 +190,14 @@ Fixpoint after_plain (l : list item) : list item :=
 
 (* does a write that is attempted now reach the client (else it fails at once)? *)
 Definition delivered (c : conn) : bool := negb (stalled c) && negb (interrupted c) && negb (eof c).
+(* what the upgrade does to the handlers that are running: their ResponseWriters keep the old
+   bufio.Writer (response.go: the writer is captured by newResponseWriter; conn.initConn installs
+   a new one over the TLS session) *)
+Definition stale_script (sc : list hstep) : list hstep :=
+  map (fun h => match h with HWrite => HStaleWrite | x => x end) sc.
+Definition stale_hs (l : list (nat * list hstep)) : list (nat * list hstep) :=
+  map (fun p => (fst p, stale_script (snd p))) l.
+
 Definition frame_of (c : conn) (h : hstep) : nat :=
   match h with HWrite => if delivered c then 1 else 0 | _ => 0 end.
 
@@ -195,7 +206,7 @@ Definition hstep_enabled (s : state) (c : conn) (h : hstep) : bool :=
   match h with
   | HBarrier b => mem_nat b (released s)
   | HPanic => true
-  | HWrite => can_write c
+  | HWrite | HStaleWrite => can_write c
   | HHandshake => match after_plain (input c) with IHello :: _ | IBad :: _ => true | _ => interrupted c || eof c end
   end.
 
@@ -258,7 +269,16 @@ Definition conn_step (cfg : config) (s : state) (c : conn) : option (conn * effe
       (* consumes the client's handshake bytes when they are there *)
       (* (bytes that are not a TLS ClientHello are consumed as well: the handshake fails at once) *)
       let inp := match after_plain (input c) with IHello :: r | IBad :: r => r | _ => input c end in
-      Some ({| cid := cid c; pc := CInline k rest; nreq := nreq c; nread := nread c; input := inp; eof := eof c; stalled := stalled c;
+      (* a ClientHello: the handshake succeeds and initConn swaps reader and writer *)
+      let up := match after_plain (input c) with IHello :: _ => true | _ => false end in
+      Some ({| cid := cid c; pc := CInline k (if up then stale_script rest else rest); nreq := nreq c; nread := nread c; input := inp; eof := eof c; stalled := stalled c;
+               interrupted := interrupted c; inflight := inflight c; hs := (if up then stale_hs (hs c) else hs c); started := started c;
+               ended := ended c; unbind_seen := unbind_seen c; read_after_unbind := read_after_unbind c;
+               sock_closed := sock_closed c; onclose := onclose c; wgdone := wgdone c; sent := sent c |}, ENone)
+    | HStaleWrite =>
+      (* plaintext on a connection that has been upgraded: the client's TLS layer sees bytes that
+         are no record and gives the connection up *)
+      Some ({| cid := cid c; pc := CInline k rest; nreq := nreq c; nread := nread c; input := input c; eof := true; stalled := stalled c;
                interrupted := interrupted c; inflight := inflight c; hs := hs c; started := started c;
                ended := ended c; unbind_seen := unbind_seen c; read_after_unbind := read_after_unbind c;
                sock_closed := sock_closed c; onclose := onclose c; wgdone := wgdone c; sent := sent c |}, ENone)
@@ -327,6 +347,12 @@ Definition handler_step (cfg : config) (s : state) (c : conn) (r : nat) : option
                       read_after_unbind := read_after_unbind c; sock_closed := sock_closed c;
                       onclose := onclose c; wgdone := wgdone c; sent := sent c |}, ENone)
         else Some (c, EDie)
+      | HStaleWrite =>
+        Some ({| cid := cid c; pc := pc c; nreq := nreq c; nread := nread c; input := input c; eof := true; stalled := stalled c;
+                 interrupted := interrupted c; inflight := inflight c; hs := others ++ [(r, rest)];
+                 started := started c; ended := ended c; unbind_seen := unbind_seen c;
+                 read_after_unbind := read_after_unbind c; sock_closed := sock_closed c; onclose := onclose c;
+                 wgdone := wgdone c; sent := sent c |}, ENone)
       | _ =>
         Some ({| cid := cid c; pc := pc c; nreq := nreq c; nread := nread c; input := input c; eof := eof c; stalled := stalled c;
                  interrupted := interrupted c; inflight := inflight c; hs := others ++ [(r, rest)];
